@@ -2036,9 +2036,25 @@ func (e *scpFlowEval) evalNil(s *scpFlowState, v ssa.Value) (isNil bool, known b
 }
 
 func (e *scpFlowEval) evalBool(s *scpFlowState, v ssa.Value) (bool, bool) {
+	if r := s.resolve(v); r != nil && r != scpFlowZero {
+		if n, ok := e.assume[r]; ok {
+			if b, isB := r.Type().Underlying().(*types.Basic); isB && b.Kind() == types.Bool {
+				return n != 0, true
+			}
+		}
+	}
 	switch x := v.(type) {
 	case *ssa.Const:
 		return core.ConstBool(x)
+	case *ssa.Call:
+		// errors.Is(a, b) on identity classes
+		if f := core.StaticCallee(x); f != nil && f.String() == "errors.Is" && len(x.Call.Args) == 2 {
+			a, ok1 := e.evalInt(s, x.Call.Args[0])
+			b, ok2 := e.evalInt(s, x.Call.Args[1])
+			if ok1 && ok2 {
+				return a == b, true
+			}
+		}
 	case *ssa.UnOp:
 		if x.Op == token.NOT {
 			b, ok := e.evalBool(s, x.X)
@@ -2135,6 +2151,8 @@ func (e *scpFlowEval) run(b *ssa.BasicBlock, from int, st *scpFlowState) []scpFl
 				p := scpFlowPath{ret: x, stores: st.stores, facts: st.facts}
 				if len(x.Results) >= 2 {
 					p.flow = st.resolve(x.Results[0])
+				}
+				if len(x.Results) >= 1 {
 					p.err = st.resolve(x.Results[len(x.Results)-1])
 				}
 				out = append(out, p)
